@@ -148,7 +148,19 @@ def proj(n):
         return {"k": "FunctionDef", "name": cps(n.name), "args": [cps(x.arg) for x in a.args], "plainargs": bool(plain),
                 "isgen": isgen, "assigned": [cps(x) for x in sorted(assigned)], "body": [proj(x) for x in n.body]}
     if isinstance(n, ast.For):
-        return {"k": "For", "target": proj(n.target), "iter": proj(n.iter), "body": [proj(x) for x in n.body], "plain": not n.orelse}
+        return {"k": "For", "target": proj(n.target), "iter": proj(n.iter), "body": [proj(x) for x in n.body], "plain": True,
+                "orelse": [proj(x) for x in n.orelse]}
+    # control flow that can reach nothing by itself (another code generator might prefer it)
+    if isinstance(n, ast.While):
+        return {"k": "While", "test": proj(n.test), "body": [proj(x) for x in n.body], "orelse": [proj(x) for x in n.orelse]}
+    if isinstance(n, ast.Continue):
+        return {"k": "Continue"}
+    if isinstance(n, ast.BoolOp):
+        return {"k": "BoolOp", "values": [proj(v) for v in n.values]}
+    if isinstance(n, ast.UnaryOp) and isinstance(n.op, ast.Not):
+        return {"k": "Not", "operand": proj(n.operand)}
+    if isinstance(n, ast.Compare) and all(isinstance(o, (ast.Is, ast.IsNot, ast.Eq, ast.NotEq)) for o in n.ops):
+        return {"k": "Compare", "left": proj(n.left), "rights": [proj(c) for c in n.comparators]}
     if isinstance(n, ast.If):
         return {"k": "If", "test": proj(n.test), "body": [proj(x) for x in n.body], "orelse": [proj(x) for x in n.orelse]}
     if isinstance(n, ast.Assign):
@@ -158,6 +170,8 @@ def proj(n):
     if isinstance(n, ast.Expr):
         if isinstance(n.value, ast.Yield):
             return {"k": "ExprYield", "value": proj(n.value.value) if n.value.value is not None else {"k": "Other:None"}}
+        if isinstance(n.value, ast.YieldFrom):
+            return {"k": "ExprYieldFrom", "value": proj(n.value.value)}
         return {"k": "Other:Expr(%s)" % type(n.value).__name__}
     if isinstance(n, ast.Return):
         return {"k": "Return", "plain": n.value is None}
@@ -180,6 +194,8 @@ def proj(n):
             return {"k": "Int", "v": str(v)}
         if isinstance(v, str):
             return {"k": "Str", "v": cps(v)}
+        if v is None:
+            return {"k": "None"}
         return {"k": "Other:Constant(%s)" % type(v).__name__}
     return {"k": "Other:%s" % type(n).__name__}
 
